@@ -25,8 +25,13 @@ except for the order of group clauses, which the driver treats as a permutation)
 structure WSt where
   buf : Bytes := []
   members : List Member := []
+  /-- ghost: positions in `buf` where the iteration over a Go map starts (`0`), where one of its
+  entries starts (`1`) and where it ends (`2`).  Never read by the walker; the driver uses it to
+  accept any iteration order of the map (the order the implementation used is not observable). -/
+  marks : List (Nat × Nat) := []
 
 def WSt.write (st : WSt) (t : Bytes) : WSt := { st with buf := st.buf ++ t }
+def WSt.mark (st : WSt) (kind : Nat) : WSt := { st with marks := st.marks ++ [(kind, st.buf.length)] }
 
 /-- how a rule name resolves (`getValidFn`): per-call table, then the global table (registered
 functions shadow built-ins), else unknown -/
@@ -130,6 +135,7 @@ a Go map). `err` is the error string for the given order of group clauses: `none
 structure CallOut where
   main : Bytes
   groups : List Bytes
+  marks : List (Nat × Nat) := []
 
 def CallOut.err (o : CallOut) (order : List Bytes) : Option Bytes :=
   let all := o.main ++ order.flatten
@@ -139,7 +145,7 @@ def CallOut.err (o : CallOut) (order : List Bytes) : Option Bytes :=
 def earlyErr (msg : Bytes) : CallOut := { main := msg ++ errEndFlag, groups := [] }
 
 def finish (st : WSt) : M CallOut := do
-  pure { main := st.buf, groups := (← groupClauses st.members).filter (!·.isEmpty) }
+  pure { main := st.buf, groups := (← groupClauses st.members).filter (!·.isEmpty), marks := st.marks }
 
 /-! ## struct walker -/
 
@@ -158,6 +164,12 @@ def keyStr : GoVal → M Bytes
   | .bool v => pure (if v then b! "true" else b! "false")
   | _ => throw (.unmodelled "map key kind")
 
+/-- "empty" as `required` sees a struct field: zero value, or a slice / array / map of length 0 -/
+def requiredEmpty (v : GoVal) : Bool :=
+  (match v.kind with
+    | .slice | .array | .map => v.len == 0
+    | _ => false) || v.isZero
+
 /-- the rule loop of one field. `descend isValidTvKind skipNested cusMsg st` runs `exist(...)` on the field
 value. -/
 def fieldRules (ext : Ext) (fns : FnTables) (scope sn fname : Bytes) (v : GoVal)
@@ -171,10 +183,7 @@ def fieldRules (ext : Ext) (fns : FnTables) (scope sn fname : Bytes) (v : GoVal)
       | .unknown => fieldRules ext fns scope sn fname v descend rs descended (st.write (getJoinFieldErr sn fname (unknownFnMsg key)))
       | .structural =>
         if key == requiredB then do
-          let lenZero := match v.kind with
-            | .slice | .array | .map => v.len == 0
-            | _ => false
-          if lenZero || v.isZero then
+          if requiredEmpty v then
             fieldRules ext fns scope sn fname v descend rs true (st.write (requiredClause sn fname cusMsg))
           else
             let st' ← descend false descended cusMsg st
@@ -239,7 +248,7 @@ def validate (cfg : StructCfg) (structName : Bytes) (value : GoVal) (gather : Bo
   | .slice t e n es => nonStruct structName (.slice t e n es) gather st
   | .array t e es => nonStruct structName (.array t e es) gather st
   | .map t k n es => nonStruct structName (.map t k n es) gather st
-  | .other k t => nonStruct structName (.other k t) gather st
+  | .other k t n z => nonStruct structName (.other k t n z) gather st
 
 /-- the field loop of `validate` -/
 def fieldsLoop (cfg : StructCfg) (sn : Bytes) (cus : RM) (fs : Fields) (st : WSt) : M WSt :=
@@ -268,14 +277,14 @@ def existTop (cfg : StructCfg) (sn fname : Bytes) (v : GoVal) (isValidTvKind ski
     else fieldsLoop cfg (structEnter cfg (sn ++ [46] ++ fname) t n).1 (structEnter cfg (sn ++ [46] ++ fname) t n).2 fs st
   | .slice _ _ n es => if n || skip then pure st else elemsLoop cfg (sn ++ [46] ++ fname) 0 es st
   | .array _ _ es => if es.allZero || skip then pure st else elemsLoop cfg (sn ++ [46] ++ fname) 0 es st
-  | .map _ _ n es => if n || skip then pure st else entriesLoop cfg (sn ++ [46] ++ fname ++ [91]) es st
+  | .map _ _ n es => if n || skip then pure st else entriesLoop cfg (sn ++ [46] ++ fname ++ [91]) es (st.mark 0)
   | .str s => pure (if s.isEmpty then st else existScalar sn fname cusMsg (.str s) isValidTvKind st)
   | .bool x => pure (if !x then st else existScalar sn fname cusMsg (.bool x) isValidTvKind st)
   | .int bits z => pure (if z == 0 then st else existScalar sn fname cusMsg (.int bits z) isValidTvKind st)
   | .uint bits n => pure (if n == 0 then st else existScalar sn fname cusMsg (.uint bits n) isValidTvKind st)
   | .float bits f r1 r2 => pure (if f.isZero then st else existScalar sn fname cusMsg (.float bits f r1 r2) isValidTvKind st)
   | .iface d => pure (if d.isNone then st else existScalar sn fname cusMsg (.iface d) isValidTvKind st)
-  | .other k t => pure (existScalar sn fname cusMsg (.other k t) isValidTvKind st)
+  | .other k t n z => pure (if z then st else existScalar sn fname cusMsg (.other k t n z) isValidTvKind st)
 
 /-- `exist` below a non-nil pointer: no further zero check, `RemoveValuePtr`, kind switch -/
 def existStripped (cfg : StructCfg) (sn fname : Bytes) (v : GoVal) (isValidTvKind skip : Bool) (cusMsg : Bytes) (st : WSt) : M WSt :=
@@ -287,14 +296,14 @@ def existStripped (cfg : StructCfg) (sn fname : Bytes) (v : GoVal) (isValidTvKin
     else fieldsLoop cfg (structEnter cfg (sn ++ [46] ++ fname) t n).1 (structEnter cfg (sn ++ [46] ++ fname) t n).2 fs st
   | .slice _ _ _ es => if skip then pure st else elemsLoop cfg (sn ++ [46] ++ fname) 0 es st
   | .array _ _ es => if skip then pure st else elemsLoop cfg (sn ++ [46] ++ fname) 0 es st
-  | .map _ _ _ es => if skip then pure st else entriesLoop cfg (sn ++ [46] ++ fname ++ [91]) es st
+  | .map _ _ _ es => if skip then pure st else entriesLoop cfg (sn ++ [46] ++ fname ++ [91]) es (st.mark 0)
   | .str s => pure (existScalar sn fname cusMsg (.str s) isValidTvKind st)
   | .bool x => pure (existScalar sn fname cusMsg (.bool x) isValidTvKind st)
   | .int bits z => pure (existScalar sn fname cusMsg (.int bits z) isValidTvKind st)
   | .uint bits n => pure (existScalar sn fname cusMsg (.uint bits n) isValidTvKind st)
   | .float bits f r1 r2 => pure (existScalar sn fname cusMsg (.float bits f r1 r2) isValidTvKind st)
   | .iface d => pure (existScalar sn fname cusMsg (.iface d) isValidTvKind st)
-  | .other k t => pure (existScalar sn fname cusMsg (.other k t) isValidTvKind st)
+  | .other k t n z => pure (existScalar sn fname cusMsg (.other k t n z) isValidTvKind st)
 
 /-- elements of a slice/array: `validate(path[i], elem, true)` -/
 def elemsLoop (cfg : StructCfg) (path : Bytes) (i : Nat) (es : GoVals) (st : WSt) : M WSt :=
@@ -307,10 +316,10 @@ def elemsLoop (cfg : StructCfg) (path : Bytes) (i : Nat) (es : GoVals) (st : WSt
 /-- entries of a map: `validate(path[key], value, true)`; `pathOpen` already ends with `[` -/
 def entriesLoop (cfg : StructCfg) (pathOpen : Bytes) (es : Entries) (st : WSt) : M WSt :=
   match es with
-  | .nil => pure st
+  | .nil => pure (st.mark 2)
   | .cons k v rest => do
     let ks ← keyStr k
-    let st1 ← validate cfg (pathOpen ++ ks ++ [93]) v true st
+    let st1 ← validate cfg (pathOpen ++ ks ++ [93]) v true (st.mark 1)
     entriesLoop cfg pathOpen rest st1
 end
 
@@ -330,7 +339,7 @@ def structValid (cfg : StructCfg) (src : Src) : M CallOut :=
     | none => pure (earlyErr (b! "src \"" ++ tstr ++ b! "\" is nil"))
     | some (.slice _ elemT _ es) => do finish (← elemsLoop cfg elemT 0 es {})
     | some (.array _ elemT es) => do finish (← elemsLoop cfg elemT 0 es {})
-    | some (.map _ _ _ es) => do finish (← entriesLoop cfg (b! "map[") es {})
+    | some (.map _ _ _ es) => do finish (← entriesLoop cfg (b! "map[") es (({} : WSt).mark 0))
     | some rv => do finish (← validate cfg [] rv false {})
 
 /-! ### `Var` -/
@@ -407,7 +416,7 @@ def varValid (ext : Ext) (fns : FnTables) (rules : List Bytes) (src : Src) : M C
                                  (match v.kind with | .array | .slice => v.len == 0 | _ => false) || v.isZero,
                                isEmpty := fun v => v.isZero }
           let st ← flatRules c [] [] [] rv (validNamesSplit validNames) {}
-          pure { main := st.buf, groups := [] }     -- VVar.getError does not evaluate groups
+          pure { main := st.buf, groups := [], marks := st.marks }     -- VVar.getError does not evaluate groups
 
 /-! ### `Map` -/
 
@@ -437,12 +446,12 @@ def missingClauses (rm : RM) (present : List Bytes) (nameOf : Bytes → Bytes) :
       if k == requiredB then requiredClause [] (nameOf key) cusMsg else []
 
 def mapEntries (c : FlatCfg) (rm : RM) (pre : Bytes) : Entries → WSt → M WSt
-  | .nil, st => pure st
+  | .nil, st => pure (st.mark 2)
   | .cons k v rest, st => do
     let key ← match k with | .str s => pure s | _ => throw (.unmodelled "non-string map key")
     let validNames := rmGet rm key
-    let st1 ← if validNames.isEmpty then pure st
-              else flatRules c pre key (mapGetKey pre key) v (validNamesSplit validNames) st
+    let st1 ← if validNames.isEmpty then pure (st.mark 1)
+              else flatRules c pre key (mapGetKey pre key) v (validNamesSplit validNames) (st.mark 1)
     mapEntries c rm pre rest st1
 
 /-- `VMap.validate(prefix, tv)` -/
@@ -453,7 +462,7 @@ def mapValidate (c : FlatCfg) (rm : RM) (pre : Bytes) (tv : GoVal) (st : WSt) : 
     else do
       let present ← es.toList.mapM fun (k, _) => match k with | .str s => pure s | _ => throw (.unmodelled "non-string map key")
       let st0 := st.write (missingClauses rm present (mapGetKey pre))
-      mapEntries c rm pre es st0
+      mapEntries c rm pre es (st0.mark 0)
   | _ => pure (st.write (getJoinFieldErr [] pre (b! "val must map")))
 
 def mapElems (c : FlatCfg) (rm : RM) (i : Nat) : GoVals → WSt → M WSt
